@@ -21,8 +21,20 @@ EXTENDS EthTx, Json
 Trace == ndJsonDeserialize("trace.ndjson")
 TracePrograms == JsonDeserialize("programs.json")
 
-VARIABLES l, S, err, nAdmitted, cls
-tvars == <<l, S, err, nAdmitted, cls>>
+(* Focus: the groups of laws whose violation this run reports.  A line that breaks a law
+   outside Focus is counted in `skipped`, the model goes on, and at the next State line the
+   model adopts the recorded state, so that the laws in Focus stay checked for the rest of
+   the trace (one property's check must not raise another property's alarm). *)
+CONSTANT Focus
+
+VARIABLES l, S, err, nAdmitted, cls, skipped
+tvars == <<l, S, err, nAdmitted, cls, skipped>>
+
+OK == <<"ok", "">>
+
+AllGroups == {"Frames", "Admit", "Outside", "TxIndex", "CoreGas", "ReceiptStatus", "ReceiptGas", "Cumulative", "Logs",
+              "Contract", "LogIndex", "Bloom", "GasBounds", "Refund", "EffPrice", "Seq", "Fee", "Supply", "EvmModule", "Cosmos",
+              "EndPanic", "FeeMarket", "BlockBloom", "Exists", "Bal", "Bal2", "Code", "Storage", "BaseFee"}
 
 S0 == [w |-> [bal |-> EmptyFn, bal2 |-> EmptyFn, seq |-> EmptyFn, ex |-> EmptyFn, code |-> EmptyFn, stor |-> EmptyFn,
               kind |-> EmptyFn, vend |-> EmptyFn, supply |-> 0, supply2 |-> 0, burnt |-> 0, burnt2 |-> 0,
@@ -30,14 +42,14 @@ S0 == [w |-> [bal |-> EmptyFn, bal2 |-> EmptyFn, seq |-> EmptyFn, ex |-> EmptyFn
        baseFee |-> 0, minGP |-> 0, maxGas |-> -1, now |-> 0, h |-> 0, blockGas |-> 0, txCount |-> 0,
        gasOf |-> <<>>, logsOf |-> <<>>, blooms |-> <<>>]
 
-TraceInit == l = 1 /\ S = S0 /\ err = <<>> /\ nAdmitted = 0 /\ cls = EmptyFn
+TraceInit == l = 1 /\ S = S0 /\ err = <<>> /\ nAdmitted = 0 /\ cls = EmptyFn /\ skipped = <<>>
 
 Bump(f, k) == Put(f, k, Get(f, k, 0) + 1)
 
 Ev == Trace[l]
 
 (* first failing check of a sequence of <<name, bool>> given as nested IFs is done by callers *)
-Fail(name) == <<l, name>>
+Fail(c) == <<l, c[1], c[2]>>
 
 WorldOfGenesis(e) ==
   [bal  |-> [a \in DOMAIN e.accts |-> e.accts[a].bal],
@@ -63,18 +75,25 @@ StateMatches(w, e) ==
   /\ w.supply = e.supply
   /\ w.supply2 = e.supply2
 
-(* which field of the state differs: for diagnostics *)
-StateDiff(w, e) ==
-  IF ~(DOMAIN w.bal \subseteq DOMAIN e.accts) THEN "State.domain"
-  ELSE IF \E a \in DOMAIN e.accts : Bal(w, a) # e.accts[a].bal THEN "State.bal"
-  ELSE IF \E a \in DOMAIN e.accts : Bal2(w, a) # e.accts[a].bal2 THEN "State.bal2"
-  ELSE IF \E a \in DOMAIN e.accts : Nonce(w, a) # e.accts[a].seq THEN "State.seq"
-  ELSE IF \E a \in DOMAIN e.accts : Ex(w, a) # e.accts[a].ex THEN "State.exists"
-  ELSE IF \E a \in DOMAIN e.accts : Code(w, a) # e.accts[a].code THEN "State.code"
-  ELSE IF \E a \in DOMAIN e.accts : StorOf(w, a) # e.accts[a].stor THEN "State.storage"
-  ELSE IF w.supply # e.supply THEN "State.supply"
-  ELSE IF w.supply2 # e.supply2 THEN "State.supply2"
-  ELSE "ok"
+(* every field of the state that differs, as law names; a law in Focus is reported first *)
+StateDiffs(w, e) ==
+  LET A == DOMAIN e.accts
+      T(c, x) == IF c THEN <<x>> ELSE <<>>
+  IN   T(~(DOMAIN w.bal \subseteq A), <<"Exists", "state-domain">>)
+    \o T(\E a \in A : Bal(w, a) # e.accts[a].bal, <<"Bal", "state-balance">>)
+    \o T(\E a \in A : Bal2(w, a) # e.accts[a].bal2, <<"Bal2", "state-balance-other-denoms">>)
+    \o T(\E a \in A : Nonce(w, a) # e.accts[a].seq, <<"Seq", "state-sequence">>)
+    \o T(\E a \in A : Ex(w, a) # e.accts[a].ex, <<"Exists", "state-account-exists">>)
+    \o T(\E a \in A : Code(w, a) # e.accts[a].code, <<"Code", "state-code">>)
+    \o T(\E a \in A : StorOf(w, a) # e.accts[a].stor, <<"Storage", "state-storage">>)
+    \o T(w.supply # e.supply, <<"Supply", "state-supply">>)
+    \o T(w.supply2 # e.supply2, <<"Supply", "state-supply-other-denoms">>)
+
+PickLaw(ds) ==
+  IF ds = <<>> THEN OK
+  ELSE IF \E i \in 1..Len(ds) : ds[i][1] \in Focus
+         THEN ds[CHOOSE i \in 1..Len(ds) : ds[i][1] \in Focus /\ \A k \in 1..(i - 1) : ds[k][1] \notin Focus]
+         ELSE ds[1]
 
 (* expected logs vs the receipt's logs: address and topic count, in order *)
 LogsMatch(exp, got) ==
@@ -86,101 +105,110 @@ ExpectedBloom(o, logs) == UNION {ToSet(o.logBits[i]) : i \in 1..Len(o.logBits)}
 
 EthCheck(e, res) ==
   LET t == e.t  o == e.o  r == e.r IN
-  IF ~res.cons THEN "Eth.frames-inconsistent-with-program"
+  IF ~res.cons THEN <<"Frames", "frames-inconsistent-with-program">>
   ELSE IF res.class \in {"dropped", "ante"} THEN
-       (IF r.code = 0 THEN "Eth.rejected-but-code-0"
-        ELSE IF r.hasEthEvent THEN "Eth.rejected-but-ethereum_tx-event"
-        ELSE IF r.hasReceipt THEN "Eth.rejected-but-receipt"
-        ELSE "ok")
+       (IF r.code = 0 THEN <<"Admit", "rejected-but-code-0">>
+        ELSE IF r.hasEthEvent THEN <<"Admit", "rejected-but-ethereum_tx-event">>
+        ELSE IF r.hasReceipt THEN <<"Admit", "rejected-but-receipt">>
+        ELSE OK)
   ELSE IF res.class \in {"core", "panic", "blockgas"} THEN
-       (IF r.code = 0 THEN "Eth.failed-outside-vm-but-code-0"
-        ELSE IF ~r.hasEthEvent THEN "Eth.admitted-without-ethereum_tx-event"
-        ELSE IF r.ethEventTxIdx # S.txCount THEN "Eth.ethereum_tx-index"
-        ELSE IF r.hasReceipt THEN "Eth.failed-outside-vm-but-receipt"
-        ELSE IF res.class = "core" /\ r.gasUsed # t.gas THEN "Eth.core-error-must-consume-gas-limit"
-        ELSE "ok")
+       (IF r.code = 0 THEN <<"Outside", "failed-outside-vm-but-code-0">>
+        ELSE IF ~r.hasEthEvent THEN <<"TxIndex", "admitted-without-ethereum_tx-event">>
+        ELSE IF r.ethEventTxIdx # S.txCount THEN <<"TxIndex", "ethereum_tx-event-index">>
+        ELSE IF r.hasReceipt THEN <<"Outside", "failed-outside-vm-but-receipt">>
+        ELSE IF res.class = "core" /\ r.gasUsed # t.gas THEN <<"CoreGas", "core-error-must-consume-gas-limit">>
+        ELSE OK)
   ELSE \* ok / vmerr
        LET rc == res.receipt IN
-       IF r.code # 0 THEN "Eth.executed-but-code-nonzero"
-       ELSE IF ~r.hasEthEvent THEN "Eth.admitted-without-ethereum_tx-event"
-       ELSE IF r.ethEventTxIdx # rc.txIdx THEN "Eth.ethereum_tx-index"
-       ELSE IF ~r.hasReceipt THEN "Eth.executed-without-receipt"
-       ELSE IF r.receipt.status # rc.status THEN "Receipt.status"
-       ELSE IF r.receipt.gasUsed # rc.gasUsed THEN "Receipt.gasUsed"
-       ELSE IF r.receipt.cum # rc.cum THEN "Receipt.cumulativeGas"
-       ELSE IF r.receipt.txIdx # rc.txIdx THEN "Receipt.txIndex"
-       ELSE IF ~LogsMatch(rc.logs, r.receipt.logs) THEN "Receipt.logs"
-       ELSE IF r.receipt.contract # rc.contract THEN "Receipt.contractAddress"
-       ELSE IF ToSet(o.bloomBits) # ExpectedBloom(o, rc.logs) THEN "Receipt.bloom"
-       ELSE IF Len(rc.logs) # Len(o.logBits) THEN "Receipt.bloom-log-count"
-       ELSE IF ~(o.intrinsic <= o.gasUsed /\ o.gasUsed <= t.gas) THEN "Gas.bounds"
-       ELSE IF o.gasUsedRes # o.gasUsed THEN "Gas.result-vs-receipt"
-       ELSE IF o.gasBeforeRefund > t.gas \/ o.gasBeforeRefund < o.gasUsed THEN "Gas.before-refund"
-       ELSE IF (o.gasBeforeRefund - o.gasUsed) * 5 > o.gasBeforeRefund THEN "Gas.refund-above-one-fifth"
-       ELSE IF (o.gasBeforeRefund - o.gasUsed) # Min(Max(res.refundCounter, 0), o.gasBeforeRefund \div 5) THEN "Gas.refund-not-capped-counter"
-       ELSE IF r.receipt.effPrice # res.eff THEN "Receipt.effectiveGasPrice"
-       ELSE "ok"
+       IF r.code # 0 THEN <<"Outside", "executed-but-code-nonzero">>
+       ELSE IF ~r.hasEthEvent THEN <<"TxIndex", "admitted-without-ethereum_tx-event">>
+       ELSE IF r.ethEventTxIdx # rc.txIdx THEN <<"TxIndex", "ethereum_tx-event-index">>
+       ELSE IF ~r.hasReceipt THEN <<"Outside", "executed-without-receipt">>
+       ELSE IF r.receipt.status # rc.status THEN <<"ReceiptStatus", "status">>
+       ELSE IF r.receipt.gasUsed # rc.gasUsed THEN <<"ReceiptGas", "receipt-gasUsed">>
+       ELSE IF r.receipt.cum # rc.cum THEN <<"Cumulative", "cumulativeGas">>
+       ELSE IF r.receipt.txIdx # rc.txIdx THEN <<"TxIndex", "receipt-txIndex">>
+       ELSE IF ~LogsMatch(rc.logs, r.receipt.logs) THEN <<"Logs", "receipt-logs">>
+       ELSE IF Len(rc.logs) > 0 /\ r.receipt.logIdx # rc.logIdx THEN <<"LogIndex", "first-log-index-in-block">>
+       ELSE IF r.receipt.contract # rc.contract THEN <<"Contract", "contractAddress">>
+       ELSE IF ToSet(o.bloomBits) # ExpectedBloom(o, rc.logs) THEN <<"Bloom", "receipt-bloom">>
+       ELSE IF Len(rc.logs) # Len(o.logBits) THEN <<"Bloom", "bloom-log-count">>
+       ELSE IF ~(o.intrinsic <= o.gasUsed /\ o.gasUsed <= t.gas) THEN <<"GasBounds", "intrinsic<=gasUsed<=gasLimit">>
+       ELSE IF o.gasUsedRes # o.gasUsed THEN <<"ReceiptGas", "result-vs-receipt">>
+       ELSE IF o.gasBeforeRefund > t.gas \/ o.gasBeforeRefund < o.gasUsed THEN <<"Refund", "gas-before-refund-range">>
+       ELSE IF (o.gasBeforeRefund - o.gasUsed) * 5 > o.gasBeforeRefund THEN <<"Refund", "refund-above-one-fifth">>
+       ELSE IF (o.gasBeforeRefund - o.gasUsed) # Min(Max(res.refundCounter, 0), o.gasBeforeRefund \div 5) THEN <<"Refund", "refund-not-min(counter,fifth)">>
+       ELSE IF r.receipt.effPrice # res.eff THEN <<"EffPrice", "effectiveGasPrice">>
+       ELSE OK
 
 (* C04/C05 on one step, by comparing the worlds before and after *)
 LawCheck(t, res) ==
   LET w0 == S.w  w1 == res.S.w IN
-  IF ~res.admitted THEN (IF w1 # w0 THEN "Admission.rejected-tx-changed-state" ELSE "ok")
+  IF ~res.admitted THEN (IF w1 # w0 THEN <<"Admit", "rejected-tx-changed-state">> ELSE OK)
   ELSE
     LET dSender == Bal(w1, t.from) - Bal(w0, t.from)
         dFc == Bal(w1, "fc") - Bal(w0, "fc")
         paid == res.gasUsed * res.eff
-    IN IF Nonce(w1, t.from) # Nonce(w0, t.from) + 1 /\ ~(t.from \in DOMAIN w1.ex /\ ~w1.ex[t.from]) THEN "Nonce.not-advanced-by-one"
-       ELSE IF dFc # paid THEN "Fee.collector-gain-differs-from-fee-paid"
-       ELSE IF w1.supply # w0.supply - (w1.burnt - w0.burnt) THEN "Supply.changed-beyond-burns"
-       ELSE IF w1.supply > w0.supply THEN "Supply.increased"
-       ELSE IF ~EvmModuleEmpty(w1) THEN "EvmModule.non-zero-balance"
-       ELSE "ok"
+    IN IF Nonce(w1, t.from) # Nonce(w0, t.from) + 1 /\ ~(t.from \in DOMAIN w1.ex /\ ~w1.ex[t.from]) THEN <<"Seq", "nonce-not-advanced-by-one">>
+       ELSE IF dFc # paid THEN <<"Fee", "collector-gain-differs-from-fee-paid">>
+       ELSE IF w1.supply # w0.supply - (w1.burnt - w0.burnt) THEN <<"Supply", "changed-beyond-burns">>
+       ELSE IF w1.supply > w0.supply THEN <<"Supply", "increased">>
+       ELSE IF ~EvmModuleEmpty(w1) THEN <<"EvmModule", "non-zero-balance">>
+       ELSE OK
+
+(* Settle(c, Sok): c is the first broken law of this line (or OK); Sok the model's next state *)
+Settle(c, Sok) ==
+  IF c = OK THEN S' = Sok /\ UNCHANGED <<err, skipped>>
+  ELSE IF c[1] \in Focus THEN err' = Fail(c) /\ PrintT(<<"LAWBROKEN", l, c[1], c[2]>>) /\ UNCHANGED <<S, skipped>>
+  ELSE S' = Sok /\ skipped' = Append(skipped, Fail(c)) /\ UNCHANGED err
 
 DoGenesis ==
   /\ Ev.ev = "Genesis"
   /\ S' = [S0 EXCEPT !.w = WorldOfGenesis(Ev), !.baseFee = Ev.baseFee, !.minGP = Ev.minGP, !.maxGas = Ev.maxGas]
-  /\ UNCHANGED <<err, nAdmitted, cls>>
+  /\ UNCHANGED <<err, nAdmitted, cls, skipped>>
 
 DoBegin ==
   /\ Ev.ev = "Begin"
   /\ S' = BeginBlockState(S, Ev.h, Ev.time)
-  /\ UNCHANGED <<err, nAdmitted, cls>>
+  /\ UNCHANGED <<err, nAdmitted, cls, skipped>>
 
 DoEth ==
   /\ Ev.ev = "Eth"
   /\ LET res == EthStep(S, Ev.t, Ev.o)
          c1 == EthCheck(Ev, res)
-         c2 == IF c1 = "ok" THEN LawCheck(Ev.t, res) ELSE c1
-     IN IF c2 = "ok"
-          THEN /\ S' = res.S /\ err' = err /\ nAdmitted' = nAdmitted + (IF res.admitted THEN 1 ELSE 0)
-               /\ cls' = Bump(cls, "eth." \o res.class)
-               /\ (Ev.class = res.class \/ Ev.class = "any")     \* the class the driver aimed for is informational
-          ELSE /\ err' = Fail(c2) /\ UNCHANGED <<S, nAdmitted, cls>>
+         c2 == IF c1 = OK THEN LawCheck(Ev.t, res) ELSE c1
+     IN /\ Settle(c2, res.S)
+        /\ nAdmitted' = nAdmitted + (IF res.admitted THEN 1 ELSE 0)
+        /\ cls' = Bump(cls, "eth." \o res.class)
 
 DoCosmos ==
   /\ Ev.ev = "Cosmos"
   /\ LET res == CosmosStep(S, Ev.t, Ev.o)
-         bad == IF res.class \in {"dropped", "ante", "msgfail", "blockgas"} /\ Ev.r.code = 0 THEN "Cosmos.failed-but-code-0"
-                ELSE IF res.class = "ok" /\ Ev.r.code # 0 THEN "Cosmos.ok-but-code-nonzero"
-                ELSE "ok"
-     IN IF bad = "ok" THEN S' = res.S /\ cls' = Bump(cls, "cosmos." \o res.class) /\ UNCHANGED <<err, nAdmitted>>
-        ELSE err' = Fail(bad) /\ UNCHANGED <<S, nAdmitted, cls>>
+         bad == IF res.class \in {"dropped", "ante", "msgfail", "blockgas"} /\ Ev.r.code = 0 THEN <<"Cosmos", "failed-but-code-0">>
+                ELSE IF res.class = "ok" /\ Ev.r.code # 0 THEN <<"Cosmos", "ok-but-code-nonzero">>
+                ELSE OK
+     IN /\ Settle(bad, res.S)
+        /\ cls' = Bump(cls, "cosmos." \o res.class)
+        /\ UNCHANGED nAdmitted
 
 DoEnd ==
   /\ Ev.ev = "End"
-  /\ LET bad == IF Ev.panic THEN "EndBlock.panicked"
-                ELSE IF Ev.blockGas # -1 /\ Ev.blockGas # GasForFeeMarket(S) THEN "EndBlock.block-gas"
-                ELSE IF ~EndBlockOk(S, Ev.nextBaseFee) THEN "FeeMarket.next-base-fee"
-                ELSE IF ToSet(Ev.blockBloomBits) # BlockBloom(S) THEN "EndBlock.block-bloom"
-                ELSE "ok"
-     IN IF bad = "ok" THEN S' = [S EXCEPT !.baseFee = Ev.nextBaseFee] /\ UNCHANGED <<err, nAdmitted, cls>>
-        ELSE err' = Fail(bad) /\ UNCHANGED <<S, nAdmitted, cls>>
+  /\ LET bad == IF Ev.panic THEN <<"EndPanic", "block-panicked">>
+                ELSE IF Ev.blockGas # -1 /\ Ev.blockGas # GasForFeeMarket(S) THEN <<"FeeMarket", "block-gas">>
+                ELSE IF ~EndBlockOk(S, Ev.nextBaseFee) THEN <<"FeeMarket", "next-base-fee">>
+                ELSE IF ToSet(Ev.blockBloomBits) # BlockBloom(S) THEN <<"BlockBloom", "block-bloom">>
+                ELSE OK
+     IN /\ Settle(bad, [S EXCEPT !.baseFee = Ev.nextBaseFee])
+        /\ UNCHANGED <<nAdmitted, cls>>
+
+(* the recorded state replaces the model's when they differ outside Focus *)
+Adopt(e) == [S EXCEPT !.w = [WorldOfGenesis(e) EXCEPT !.burnt = S.w.burnt, !.burnt2 = S.w.burnt2], !.baseFee = e.baseFee]
 
 DoState ==
   /\ Ev.ev = "State"
-  /\ LET d == StateDiff(S.w, Ev) IN
-     IF d = "ok" /\ S.baseFee = Ev.baseFee THEN UNCHANGED <<S, err, nAdmitted, cls>>
-     ELSE err' = Fail(IF d = "ok" THEN "State.baseFee" ELSE d) /\ UNCHANGED <<S, nAdmitted, cls>>
+  /\ LET c == PickLaw(StateDiffs(S.w, Ev) \o (IF S.baseFee # Ev.baseFee THEN << <<"BaseFee", "state-baseFee">> >> ELSE <<>>))
+     IN /\ Settle(c, IF c = OK THEN S ELSE Adopt(Ev))
+        /\ UNCHANGED <<nAdmitted, cls>>
 
 TraceNext ==
   /\ l <= Len(Trace)
@@ -193,7 +221,7 @@ TraceSpec == TraceInit /\ [][TraceNext]_tvars
 NoErr == err = <<>>
 
 (* printed once, when the last line has been consumed: what the run exercised *)
-Coverage == (l = Len(Trace) + 1 /\ err = <<>>) => PrintT(<<"COVERAGE", ToJsonObject(cls), nAdmitted>>)
+Coverage == (l = Len(Trace) + 1 /\ err = <<>>) => PrintT(<<"COVERAGE", ToJsonObject(cls), nAdmitted, "SKIPPED", skipped>>)
 
 (* every line consumed: the run ended at l = Len(Trace) + 1 without error *)
 TraceAccepted ==
